@@ -846,41 +846,49 @@ def run_alg(case, drv):
                 mon.append({"cls": "contain-subset-vs-atoms", "what": f"tool={tool!r}: {r} but atoms say {want}: a={case['a']!r} b={case['b']!r}"})
         tags.append(f"contain={r}")
 
-    # ---------------- least_number_of_transformations (keys)
+    # ---------------- least_number_of_transformations (keys), tool='modelsearch' and tool=None
     single = lambda ss, cls: sum(isinstance(s, cls) for s in ss) <= 1
-    r, e = attempt(lambda: list(A.least_number_of_transformations(B, tool="modelsearch").keys()))
     order_defined = single(sb, st_mod["abs"]) and single(sb, st_mod["lag"])
-    if order_defined:
-        K("lnt", ["lnt", la, lb], r, e, lambda v: [key_sexp(x) for x in v])
-    elif drv is not None and not e:
-        ans = drv.ask(["lnt", la, lb])
-        if sorted(x[0] for x in ans) != sorted(str(x[0]) for x in r):
-            k.append(f"lnt kinds: model {ans} code {r}")
-    if e:
-        c = err_cls("lnt", e, A, B)
-        if c:
-            mon.append({"cls": c, "what": f"least_number_of_transformations raises {e} on a={case['a']!r} b={case['b']!r}"})
-    else:
+    for tool, wire in (("modelsearch", "modelsearch"), (None, "none")):
+        r, e = attempt(lambda: list(A.least_number_of_transformations(B, tool=tool).keys()))
+        if order_defined:
+            K(f"lnt tool={tool}", ["lnt", la, lb, wire], r, e, lambda v: [key_sexp(x) for x in v])
+        elif drv is not None and not e:
+            ans = drv.ask(["lnt", la, lb, wire])
+            if ans[:1] == ["err"] or sorted((x[0], len(x)) for x in ans) != sorted((str(x[0]), len(x)) for x in r):
+                k.append(f"lnt kinds tool={tool}: model {ans} code {r}")
+        if e:
+            c = err_cls("lnt", e, A, B)
+            if c:
+                mon.append({"cls": c, "what": f"least_number_of_transformations(tool={tool!r}) raises {e} on a={case['a']!r} b={case['b']!r}"})
+            continue
+
         def norm(key):  # feature key -> atom
             if key[0] == "PERIPHERALS":
                 return ("PERIPHERALS", key[1], "MET" if len(key) == 3 else "DRUG")
             return tuple(key)
         got = [norm(x) for x in r]
         bad = []
-        met = [x for x in got if x[0] == "PERIPHERALS" and x[2] == "MET"]
+        is_met = lambda x: x[0] == "PERIPHERALS" and x[2] == "MET"
+        met = [x for x in got if is_met(x)]
         for c_ in DEFAULT_ATOMS:
-            ca = {x for x in atA if cat(x) == c_ and not (c_ == "PERIPHERALS" and x[2] == "MET")}
-            cb = {x for x in atB if cat(x) == c_ and not (c_ == "PERIPHERALS" and x[2] == "MET")}
-            g = [x for x in got if cat(x) == c_ and x not in met]
+            ca = {x for x in atA if cat(x) == c_ and not is_met(x)}
+            cb = {x for x in atB if cat(x) == c_ and not is_met(x)}
+            g = [x for x in got if cat(x) == c_ and not is_met(x)]
             need = (not (ca & cb)) and bool(cb)
             if need != (len(g) == 1) or any(x not in cb for x in g):
                 bad.append((c_, g, "needed" if need else "not needed"))
+        ma, mb = {x for x in atA if is_met(x)}, {x for x in atB if is_met(x)}
+        if tool is None:  # all tools: the metabolite peripherals are one more category
+            need = (not (ma & mb)) and bool(mb)
+            if need != (len(met) == 1) or any(x not in mb for x in met):
+                bad.append(("PERIPHERALS-MET", met, "needed" if need else "not needed"))
         if bad:
-            mon.append({"cls": "lnt-vs-spec", "what": f"a={case['a']!r} b={case['b']!r}: {bad}"})
-        elif met:
+            mon.append({"cls": "lnt-vs-spec", "what": f"tool={tool!r} a={case['a']!r} b={case['b']!r}: {bad}"})
+        elif met and tool == "modelsearch":
             mon.append({"cls": "lnt-modelsearch-includes-metabolite-peripheral",
                         "what": f"least_number_of_transformations(tool='modelsearch') contains {r} for a={case['a']!r} b={case['b']!r}"})
-        tags.append(f"lnt-n={len(r)}")
+        tags.append(f"lnt-{wire}-n={len(r)}")
 
     # ---------------- chained results (names that went through tuple(set(..)))
     for what, f, req in (("(a+b)-b", lambda: (A + B) - B, ["sub", ["add", la, lb], lb]),
@@ -924,8 +932,18 @@ def run_alg(case, drv):
     for t in [s for s in sa if isinstance(s, st_mod["trans"])][:1]:
         for u in [s for s in sb if isinstance(s, st_mod["trans"])][:1]:
             v, e = attempt(lambda: t == u)
+            if drv is not None:
+                ans = drv.ask(["teq", [list(t.counts), modes_sexp(t.depot)], [list(u.counts), modes_sexp(u.depot)]])
+                exp = ["err", e] if e else ("true" if v is True else "false" if v is False else f"nonbool:{v!r}")
+                if ans != exp:
+                    k.append(f"Transits.__eq__: model {ans} code {exp} on {t!r} {u!r}")
             if e is None and not isinstance(v, bool):
                 mon.append({"cls": "transits-eq-returns-tuple", "what": f"{t!r} == {u!r} returns {v!r}"})
+            elif e is None and isinstance(t.depot, tuple) and isinstance(u.depot, tuple):
+                want = set(t.counts) == set(u.counts) and set(t.depot) == set(u.depot)
+                if v != want:
+                    mon.append({"cls": "transits-eq-vs-sets", "what": f"{t!r} == {u!r} is {v}"})
+            tags.append(f"transits-eq={v}")
     return {"k": k, "mon": real_mon, "tags": tags, "nontrivial": len(sa) + len(sb) >= 3}
 
 
